@@ -3,7 +3,11 @@
 (* C19 case generators (spec -> code): one state per case, expected result *)
 (* computed by Uuid.tla and printed as JSON.                               *)
 (*   InitSub   : hex strings of length 0..40 with one character replaced   *)
-(*               by one of a class alphabet (hyphen, near-hex, non-ASCII). *)
+(*               by one of a class alphabet (hyphen, near-hex, control,     *)
+(*               white space, non-ASCII runes of 2/3/4 UTF-8 bytes whose    *)
+(*               low byte or low bits collide with a hex digit or the       *)
+(*               hyphen, lone bytes 128..255 = invalid UTF-8).              *)
+(*   InitCanonSub : every position of the canonical form replaced likewise *)
 (*   InitIns   : a character inserted at every position of 31/32/33 digits *)
 (*   InitCanon : mutations of the canonical 8-4-4-4-12 form                *)
 (*   InitV1    : TimeUUIDWith(t, clock, node) at timestamp field boundaries*)
@@ -23,20 +27,51 @@ Seed == EnvNat("VF_SEED", 1)
 HexChars == <<48, 49, 50, 51, 52, 53, 54, 55, 56, 57, 97, 98, 99, 100, 101, 102, 65, 66, 67, 68, 69, 70>>
 Pat(i) == HexChars[((i * 7 + 3) % 22) + 1]
 PatStr(n) == [i \in 1 .. n |-> Pat(i)]
-\* '-', 'g', 'G', '/', ':', '@', '`', ' ', NUL, DEL, e-acute, fullwidth zero, unicode hyphen, 'F', 'f', '0', '9', 'a', 'A',
-\* newline, '+', '{', 'x'
-Alphabet == <<45, 103, 71, 47, 58, 64, 96, 32, 0, 127, 233, 65296, 8208, 70, 102, 48, 57, 97, 65, 10, 43, 123, 120>>
+\* ---- the character alphabet.  A code below 1114112 (0x110000) is a Unicode code point; the code
+\* 1114112 + b stands for the single byte b (128..255) standing alone, i.e. invalid UTF-8.  Neither is
+\* a hex digit or a hyphen for Uuid.tla, whatever its low byte or low bits look like.
+Raw(b) == 1114112 + b
+HexAndHyphen == <<48, 49, 50, 51, 52, 53, 54, 55, 56, 57, 97, 98, 99, 100, 101, 102, 65, 66, 67, 68, 69, 70, 45>>
+Targets == <<48, 49, 57, 97, 102, 65, 70, 45>>                    \* '0' '1' '9' 'a' 'f' 'A' 'F' '-'
+\* code points whose low byte / low 7 bits / digit value collide with an ASCII hex digit or the hyphen:
+\*  +128 (U+00B0.., 2-byte UTF-8, low 7 bits), +256 (U+0130.., low byte), +1024 (Cyrillic block), +1536 (U+0630..,
+\*  U+0666 = 'f' + 1536), +7680 and +8192 (3-byte), +65248 (fullwidth forms U+FF10.., U+FF41.., U+FF0D),
+\*  +65280 (U+FF30.., low byte), +65536, +128512 and +1113856 (4-byte UTF-8, low byte)
+Offsets == <<128, 1024, 1536, 7680, 8192, 65248, 65280, 65536, 128512, 1113856>>
+Alphabet ==
+  \* valid characters and near misses in ASCII
+  <<45, 70, 102, 48, 57, 97, 65, 103, 71, 47, 58, 64, 96, 120, 88, 43, 123, 125, 95, 46, 44>>
+  \* NUL, control characters and white space (ASCII, Latin-1, Unicode)
+  \o <<0, 8, 9, 10, 11, 12, 13, 27, 32, 127, 133, 160, 8232, 12288, 65279>>
+  \* other non-ASCII: e-acute, U+2010 HYPHEN, U+2212 MINUS, Arabic-Indic digits 0 and 9, U+FFFD, U+10FFFF
+  \o <<233, 8208, 8722, 1632, 1641, 65533, 1114111>>
+  \* low-byte collisions of every hex digit and the hyphen: U+0130..U+0139, U+0141.., U+0161.., U+012D
+  \o [i \in 1 .. Len(HexAndHyphen) |-> HexAndHyphen[i] + 256]
+  \* the other collision classes on representative targets
+  \o [i \in 1 .. Len(Offsets) * Len(Targets) |->
+        Targets[((i - 1) % Len(Targets)) + 1] + Offsets[((i - 1) \div Len(Targets)) + 1]]
+  \* invalid UTF-8: a byte 128..255 alone - those whose low 7 bits are a hex digit / hyphen, and the extremes
+  \o [i \in 1 .. Len(HexAndHyphen) |-> Raw(HexAndHyphen[i] + 128)]
+  \o <<Raw(128), Raw(191), Raw(192), Raw(254), Raw(255)>>
 NX == Len(Alphabet)
 
-ParseCase(s) == [k |-> "parse", s |-> s, cls |-> ParseClass(s), why |-> RejectReason(s),
-                 val |-> IF Len(HexDigits(s)) = 32 THEN ParseValue(s) ELSE <<>>]
+\* one pass over the string (the definitions are those of Uuid.tla: ParseClass, RejectReason, ParseValue)
+ParseCase(s) ==
+  LET d == HexDigits(s)
+      other == \E i \in 1 .. Len(s) : ~IsHex(s[i]) /\ ~IsHyphen(s[i])
+      cls == IF other \/ Len(d) # 32 THEN "reject" ELSE IF NoHyphens(s) \/ CanonicalHyphens(s) THEN "accept" ELSE "either"
+      why == IF other THEN "nonhex" ELSE IF Len(d) < 32 THEN "short" ELSE IF Len(d) > 32 THEN "long" ELSE "none"
+  IN [k |-> "parse", s |-> s, cls |-> cls, why |-> why,
+      val |-> IF Len(d) = 32 THEN [i \in 1 .. 16 |-> 16 * HexVal(d[2 * i - 1]) + HexVal(d[2 * i])] ELSE <<>>]
 
+\* every length 0..40, every position, every alphabet entry; lengths 32 (a replaced DIGIT of an otherwise
+\* valid string: every digit position class) is always complete, the rest is sampled by Stride
 InitSub ==
   c \in {x \in [n : 0 .. 40, p : 0 .. 40, a : 1 .. NX] :
-           /\ x.n % NShard = Shard
+           /\ (x.n + x.p + x.a) % NShard = Shard
            /\ x.p <= x.n
            /\ (x.p = 0 => x.a = 1)
-           /\ (x.p = 0 \/ x.n \in 31 .. 33 \/ (x.n * 5 + x.p * 3 + x.a + Seed) % Stride = 0)}
+           /\ (x.p = 0 \/ x.n = 32 \/ (x.n * 5 + x.p * 3 + x.a + Seed) % Stride = 0)}
 SubStr(x) == [i \in 1 .. x.n |-> IF i = x.p THEN Alphabet[x.a] ELSE Pat(i)]
 EmitSub == PrintT(<<"CASE", ToJson(ParseCase(SubStr(c)))>>)
 
@@ -69,7 +104,16 @@ CanonCases ==
         [i \in 1 .. 32 |-> 45], [i \in 1 .. 36 |-> 45], <<>>, <<45>>,
         CanonS \o CanonS, SubSeq(CanonS, 1, 35), CanonS \o <<48>>,
         [i \in 1 .. 63 |-> IF i % 2 = 0 THEN 45 ELSE Pat(i)] >>               \* a hyphen after every digit
+\* every position of the canonical text (digits and hyphens) replaced by every alphabet entry
+InitCanonSub == c \in {x \in [p : 1 .. 36, a : 1 .. NX] : (x.p + x.a) % NShard = Shard}
+EmitCanonSub == PrintT(<<"CASE", ToJson(ParseCase(SetAt(CanonS, c.p, Alphabet[c.a])))>>)
 InitCanon == c \in [i : 1 .. Len(CanonCases)]
+\* the one-pass ParseCase agrees with the definitions of Uuid.tla
+ASSUME \A i \in 1 .. Len(CanonCases) :
+         LET x == CanonCases[i] pc == ParseCase(x) IN
+         /\ pc.cls = ParseClass(x) /\ pc.why = RejectReason(x)
+         /\ (Len(HexDigits(x)) = 32 => pc.val = ParseValue(x))
+ASSUME \A a \in 22 .. NX : ParseCase(SetAt(CanonS, 3, Alphabet[a])).cls = "reject"      \* everything beyond the ASCII entries
 EmitCanon == PrintT(<<"CASE", ToJson(ParseCase(CanonCases[c.i]))>>)
 
 \* ---------------------------------------------------------------- timestamps
